@@ -22,6 +22,10 @@ GROUPS = [
         ('Modified', 0x27, 'amqp:modified:list'), ('Declared', 0x33, 'amqp:declared:list')], 'AMQP 1.0 part 3, 3.4.2-3.4.5; part 4, 4.5.5', 'C03 C05 C04'),
     ('body_section', 'fe2o3-amqp-types/src/messaging/message/body.rs', 'a body section', [
         ('Data', 0x75, 'amqp:data:binary'), ('Sequence', 0x76, 'amqp:amqp-sequence:list'), ('Value', 0x77, 'amqp:amqp-value:*')], 'AMQP 1.0 part 3, 3.2.6-3.2.8', 'C03 C05 C04'),
+    ('message_section', 'fe2o3-amqp-types/src/messaging/message/mod.rs', 'a message section', [
+        ('Header', 0x70, 'amqp:header:list'), ('DeliveryAnnotations', 0x71, 'amqp:delivery-annotations:map'), ('MessageAnnotations', 0x72, 'amqp:message-annotations:map'),
+        ('Properties', 0x73, 'amqp:properties:list'), ('ApplicationProperties', 0x74, 'amqp:application-properties:map'),
+        ('Body', 0x75, 'amqp:data:binary'), ('Body', 0x76, 'amqp:amqp-sequence:list'), ('Body', 0x77, 'amqp:amqp-value:*'), ('Footer', 0x78, 'amqp:footer:map')], 'AMQP 1.0 part 3, 3.2.1-3.2.9', 'C03 C05 C04 C01'),
     ('target_archetype', 'fe2o3-amqp-types/src/messaging/target.rs', 'a target', [
         ('Target', 0x29, 'amqp:target:list'), ('Coordinator', 0x30, 'amqp:coordinator:list')], 'AMQP 1.0 part 3, 3.5.4; part 4, 4.5.1', 'C03 C05 C04'),
     ('lifetime_policy', 'fe2o3-amqp-types/src/messaging/lifetime_policy.rs', 'a lifetime policy', [
@@ -39,6 +43,7 @@ w('use vstd::prelude::*;')
 w('')
 w('verus! {')
 w('')
+w('//@@ gsubst `serde_amqp::serde::de::Error::custom(__E1)` => `err_custom()` rule=R9')
 w('//@@ gsubst `de::Error::custom(__E1)` => `err_custom()` rule=R9')
 w('//@@ trusted written by tools/mkdispatch.py from a table: the descriptor codes and names of each group are taken from the AMQP 1.0 specification text (reference per group), not from the code; the error value a dispatcher builds (`de::Error::custom(..)`, with or without `format!`) is a stand-in; R39: a `match` over string-literal patterns is the chain of equality tests it denotes')
 w('//@@ trusted the Field enums are extracted with every `#[cfg(feature = "transaction")]` variant present (the units describe the build with `transaction` and `acceptor` on, R12)')
